@@ -1754,6 +1754,8 @@ class SQLParser:
             compute_expression = cls._parse_compute_expression(children_scanner, sql_type)  # 解析
             children_scanner.close()
             save_mode = static.GENERATE_COLUMN_SAVE_MODE_HASH.get(scanner.pop_as_source())
+            if save_mode is None:
+                raise SqlParseError(f"无法解析的计算字段存储类型: {scanner}")
             return node.ASTGeneratedColumn(
                 expression=compute_expression,
                 save_mode=save_mode
